@@ -28,7 +28,8 @@ def gen_case(rng, tier, damaged, single_ok=True):
         enc = ["ref", rng.choice(REF_VARIANTS[version])]
     case = {"tree": tree, "pl_exp": exp, "version": version, "encoder": enc,
             "via": rng.choice(["lib", "lib", "cli", "cli-check"]), "form": rng.choice(["root", "parent"]),
-            "order_seed": rng.randrange(1 << 20), "damage": []}
+            "order_seed": rng.randrange(1 << 20), "damage": [],
+            "prelude": rng.randrange(1, 1 << 30) if rng.random() < 0.3 else None}
     if damaged:
         files = tree["files"]
         nonempty = [i for i, f in enumerate(files) if f[1] > 0]
@@ -129,9 +130,70 @@ def apply_damage(root, tree, damage):
                     fd.write(bytes([(b % 255) + 1]))
 
 
+def _malform(raw, how):
+    """A syntactically valid bencoding that is not a well-formed metafile (or not bencoding at all)."""
+    from ..ref import bencode as rb
+    if how == "truncated":
+        return raw[:len(raw) // 2]
+    top = rb.decode(raw)[0].py()
+    info = top[b"info"]
+
+    def leaves(tree):
+        for k, v in tree.items():
+            if isinstance(v, dict) and b"" in v and isinstance(v[b""], dict):
+                yield v[b""]
+            elif isinstance(v, dict):
+                yield from leaves(v)
+    if b"file tree" in info:
+        lv = list(leaves(info[b"file tree"]))
+        victim = lv[0]          # a nested leaf: the failure happens deep inside the walk
+        victim.pop(b"pieces root" if how == "no-root" else b"length", None)
+    elif b"files" in info:
+        info[b"files"][-1].pop(b"length" if how != "no-root" else b"path", None)
+    else:
+        info.pop(b"length", None)
+    return rb.encode(top)
+
+
+def run_prelude(case, scratch):
+    """Earlier, unjudged recheck activity in the same process: other torrents (well-formed, nested) and
+    malformed metafiles whose recheck raises.  Nothing of it may leak into the judged recheck."""
+    import random
+    rng = random.Random(case["prelude"])
+    recheck = drive.mod("recheck")
+    for k in range(rng.choice([1, 2, 3])):
+        pre = os.path.join(scratch, "pre", str(k))
+        ver = rng.choice([1, 2, 3])
+        files = [(("sub", "deep", "x.bin"), content(k + 1, rng.choice([5, 20000, 40000]))),
+                 (("sub", "y"), content(k + 2, rng.choice([0, 16384, 7]))), (("top",), content(k + 3, 33000))]
+        raw = rt.build("pre" + str(k), files=files, pl=16384, version=ver)
+        how = rng.choice(["ok", "ok", "no-root", "no-length", "truncated", "missing-content"])
+        if how not in ("ok", "missing-content"):
+            raw = _malform(raw, how)
+        os.makedirs(pre, exist_ok=True)
+        mp = os.path.join(pre, "p.torrent")
+        with open(mp, "wb") as fd:
+            fd.write(raw)
+        root = os.path.join(pre, "in", "pre" + str(k))
+        if how != "missing-content":
+            for comps, data in files:
+                p = os.path.join(root, *comps)
+                os.makedirs(os.path.dirname(p), exist_ok=True)
+                with open(p, "wb") as fd:
+                    fd.write(data)
+        else:
+            os.makedirs(os.path.join(pre, "in"), exist_ok=True)
+        try:
+            recheck.Checker(mp, rng.choice([root, os.path.join(pre, "in")])).results()
+        except BaseException:  # noqa - whatever it raises is not judged here
+            pass
+
+
 def observe(case, scratch):
     """Shared driver.  Returns dict with reference + tool observations."""
     env.install_enum_order("shuffle", case["order_seed"])
+    if case.get("prelude"):
+        run_prelude(case, scratch)
     tree = case["tree"]
     base = os.path.join(scratch, "in")
     if case.get("same_name_parent"):
@@ -204,6 +266,8 @@ def damage_sig(case):
 
 def _common_result(case, obs, viol, counters, sample_extra=None):
     ref = obs.get("ref")
+    if case.get("prelude"):
+        counters["cases_with_earlier_rechecks_in_process"] = 1
     sample = {"files": [[f[0], f[1]] for f in case["tree"]["files"][:8]], "piece_length": 2 ** case["pl_exp"],
               "version": case["version"], "encoder": case["encoder"], "via": case["via"], "form": case["form"],
               "damage": case["damage"], "tool_result": obs.get("tool_result"),
